@@ -4,6 +4,7 @@ import WrglModel.Model.Encoding
 import WrglModel.Spec.Sorter
 import WrglModel.Spec.TableInv
 import WrglModel.Model.Producers
+import WrglModel.Model.Resolver
 import WrglModel.Gen.Facts
 open Lean
 namespace Wrgl.Drv
@@ -223,6 +224,60 @@ def handleC03 (op : String) (input impl : Json) : Except String Json := do
       return reply Json.null false ["no-panic"]
     else
       return reply Json.null big (if big then [] else ["unexpected-error"])
+  | "resolve-inv" =>
+    -- doctor resolve over a history of commits (oldest first), each holding a sound table, one that
+    -- needs a re-ingest or one whose key must be dropped; all issues repaired by ONE resolver. Every
+    -- table of the history as it stands afterwards must satisfy the clauses every producer's tables
+    -- satisfy (`tableInv`, one index per block, readable, clean self-diagnosis). Model: `resolveAll`
+    -- (Model/Resolver.lean) from a new resolver over the damaged tables, in order.
+    let cs ← arrFld input "commits"
+    let bs := Facts.blockSize
+    let ins ← cs.mapM fun c => do
+      let res ← strFld c "resolution"
+      return (res, ({ columns := ← asRow (← fld c "columns"), pk := ← asNatList (← fld c "pk"), rows := ← asRows (← fld c "rows"),
+                      resolution := if res == "resetPK" then .resetPK else .reingest } : DamagedTable))
+    let ds := (ins.filter (fun (r, _) => r != "none")).map (·.2)
+    let m := resolveAll (fun pk => refSort pk) bs Facts.addRowMaxCell (2 ^ 40) ResolverSt.fresh ds
+    let mj := jRes (fun ts => Json.arr (ts.map jStored).toArray) m
+    if resClass impl == "panic" then return reply mj false ["no-panic"]
+    if resClass impl != "ok" then
+      if (fldD impl "kind" Json.null).getStr?.toOption == some "not-a-case" then return reply mj true []
+      return reply mj false ["unexpected-error"]
+    let obs ← arrFld (fldD impl "val" Json.null) "commits"
+    if obs.length != ins.length then return reply mj false ["unexpected-error"]
+    let mts := match m with
+      | .ok ts => ts
+      | _ => []
+    let mut viol : List String := []
+    let mut agree := m.isOk && mts.length == ds.length
+    let mut k := 0
+    for ((res, d), o) in ins.zip obs do
+      let t ← tableOf (← fld o "table")
+      let hashes ← hashesOf (fldD o "hashes" (Json.arr #[]))
+      let issues ← (← asArr (fldD o "issues" (Json.arr #[]))).mapM asStr
+      let before ← (← asArr (fldD o "diagBefore" (Json.arr #[]))).mapM asStr
+      let ft := fullTableOf t hashes
+      let v := tableInv bs ft ++ (if t.numIdx == t.blocks.length then [] else ["one-index-per-block"]) ++
+        (if t.problems.isEmpty then [] else ["table-readable"]) ++
+        (if issues.isEmpty then [] else ["self-diagnosis-clean"])
+      viol := viol ++ v.filter (fun c => !viol.contains c)
+      -- the diagnosis before the repair asked for the resolution the damage calls for
+      let asked := match before with
+        | [] => "none"
+        | e :: _ => if e.startsWith "pk index greater than columns count" || e.startsWith "primary key column is empty" then "resetPK" else "reingest"
+      agree := agree && asked == res && before.length ≤ 1
+      if res == "none" then
+        -- a sound table is left alone
+        agree := agree && (← strFld o "oldSum") == (← strFld o "newSum")
+      else
+        match mts[k]? with
+        | none => agree := false
+        | some ms =>
+          let dup := (distinctKeys ms.pk d.rows).length != d.rows.length
+          agree := agree && ms.columns == ft.columns && ms.pk == ft.pk && ms.tblIdx.length == ft.tblIdx.length &&
+            (dup || (ms.blocks == ft.blocks && ms.tblIdx == ft.tblIdx && ms.rowsCount == ft.rowsCount))
+        k := k + 1
+    return reply mj agree viol
   | _ => throw s!"unknown op {op}"
 
 def handleC02 (op : String) (input impl : Json) : Except String Json := do
